@@ -212,7 +212,7 @@ def xcheck(prop_id, model, limit=200):
         f.write('].\n')
         f.write('Fixpoint bad (k : N) (cs : list (string * val * val)) : list N :=\n'
                 '  match cs with [] => [] | (n, i, o) :: cs\' =>\n'
-                '    if val_eqb (run n i) o then bad (k + 1) cs\' else k :: bad (k + 1) cs\' end.\n')
+                '    if val_eqb (sv_run_entry n i) o then bad (k + 1) cs\' else k :: bad (k + 1) cs\' end.\n')
         f.write('Eval vm_compute in (bad 0 cases).\n')
     p = subprocess.run(['bash', '-c', 'ulimit -s unlimited 2>/dev/null; timeout 600 coqc -Q . SV xcheck/%s.v' % name],
                        cwd=COQ, stdout=subprocess.PIPE, stderr=subprocess.STDOUT)
